@@ -522,3 +522,24 @@ Proof.
     + intros n c Q. discriminate.
     + intros q k L. left. now apply E1.
 Qed.
+
+(* preparing one step never undoes what was prepared for another: directories stay directories,
+   whether it succeeds or fails *)
+Theorem prepare_step_keeps_dirs fs cwd outs rsp e fs' :
+  prepare_step fs cwd outs rsp = (e, fs') -> dirs_kept fs fs'.
+Proof.
+  unfold prepare_step. destruct (create_parent_dirs fs cwd outs) as [[er|] fs1] eqn:C.
+  - intros H; inversion H; subst. apply extends_dirs_kept. eapply create_parent_dirs_frame; eauto.
+  - pose proof (create_parent_dirs_frame _ _ _ _ _ C) as [E1 _].
+    destruct rsp as [[n c]|].
+    + intros W. apply write_rspfile_dirs_kept in W. intros q L. apply W. now apply E1.
+    + intros H; inversion H; subst. now apply extends_dirs_kept.
+Qed.
+
+Corollary prepare_steps_all_ready fs cwd outs1 rsp1 fs1 outs2 rsp2 e fs2 :
+  prepare_step fs cwd outs1 rsp1 = (None, fs1) -> prepare_step fs1 cwd outs2 rsp2 = (e, fs2) ->
+  forall o d, In o outs1 -> lp_parent (path_new o) = Some d -> is_dir_l fs2 cwd d = true.
+Proof.
+  intros H1 H2 o d I Pp. apply prepare_step_ready in H1 as (D & _).
+  eapply is_dir_dirs_kept; [eapply prepare_step_keeps_dirs; exact H2|]. eapply D; eauto.
+Qed.
